@@ -448,9 +448,9 @@ public:
 	*/
 	Array& append(const Array& b)
 	{
-		int n=length();
-		resize(length()+b.length());
-		for (int i=0; i<b.length(); i++)
+		int n=length(), m=b.length();
+		resize(n+m);
+		for (int i=0; i<m; i++)
 			_a[n+i] = b[i];
 		return *this;
 	}
